@@ -100,6 +100,32 @@ def check_signature(sig):
     return errs
 
 
+def check_function_enter(sig):
+    """the callee side: every stack-passed argument is loaded from rbp + its System V offset"""
+    from ppci.arch.x86_64 import registers as R
+    T = _types()
+    cls = {"i64": R.Register64, "u64": R.Register64, "ptr": R.Register64, "i32": R.Register32, "u32": R.Register32,
+           "f64": R.XmmRegisterDouble, "f32": R.XmmRegisterSingle}
+    if any(t not in cls for t in sig):
+        return []
+    args = [(T[t], cls[t]("v%d" % i)) for i, t in enumerate(sig)]
+    try:
+        ins = list(arch().gen_function_enter(args))
+    except Exception as e:
+        return ["gen_function_enter%r raises nothing, got %r" % (list(sig), e)]
+    want = [off for kind, off in expected_locations(sig) if kind == "stack"]
+    got = []
+    for i in ins:
+        for attr in ("rm", "src", "m"):
+            rm = getattr(i, attr, None)
+            if rm is not None and type(rm).__name__ == "RmMemDisp":
+                got.append(rm.disp if hasattr(rm, "disp") else getattr(rm, "offset", None))
+                break
+    if got != want:
+        return ["function entry of %s loads its stack arguments from rbp+%s, got rbp+%s" % (list(sig), want, got)]
+    return []
+
+
 def check_rv(t):
     T = _types()
     rv = arch().determine_rv_location(T[t])
@@ -161,7 +187,7 @@ def _chunk(args):
             sig.append(TYPES[x % len(TYPES)])
             x //= len(TYPES)
         ev += 1
-        r = check_signature(tuple(sig))
+        r = check_signature(tuple(sig)) or check_function_enter(tuple(sig))
         if r and len(bad) < 3:
             bad.append((list(sig), r[0]))
     return ev, bad
@@ -178,7 +204,7 @@ def _chunk_random(args):
         p = rng.random()
         sig = tuple(rng.choice(allt if p < 0.5 else (["f32", "f64", "i64"] if p < 0.8 else ["f32", "f32", "f64", "i32", "ptr"])) for _ in range(n))
         ev += 1
-        r = check_signature(sig)
+        r = check_signature(sig) or check_function_enter(sig)
         if r and len(bad) < 3:
             bad.append((list(sig), r[0]))
     return ev, bad
@@ -224,7 +250,7 @@ def bounded(tier_name, rnd):
 
 def replay_bounded(inp):
     if inp["kind"] == "signature":
-        r = check_signature(tuple(inp["sig"]))
+        r = check_signature(tuple(inp["sig"])) or check_function_enter(tuple(inp["sig"]))
     elif inp["kind"] == "rv":
         r = check_rv(inp["type"])
     else:
